@@ -145,3 +145,84 @@ def body_model(sel: int) -> bool:
         ptxt, pexp = " ".join(lits), [float(x) for x in lits]
     blocks = [("B0", [("1.0", ["pi+", "pi-"], bool(ph), model, ptxt, pexp)])]
     return _check(pre + _render(blocks), blocks)
+
+
+# ---- the post-processing layer for every numeric value: parse() on hand-built trees whose numeric tokens carry symbolic floats --------
+class Tok:
+    def __init__(self, value):
+        self.value = value
+
+    def __deepcopy__(self, memo):
+        return Tok(self.value)
+
+
+class _StubLark:
+    tree = None
+
+    def __init__(self, *a, **k):
+        pass
+
+    def parse(self, text):
+        return _StubLark.tree
+
+
+N_TREE = 4
+
+
+def body_tree_values(sel: int, x: float, y: float, z: float) -> bool:
+    """DecFileParser.parse() and the table queries downstream of Lark, with the tree given directly: branching fractions and
+    numeric parameters are symbolic floats (what the lexer lemmas + B1 guarantee about real texts is the shape of this tree)"""
+    import warnings
+    from lark import Tree
+    import decaylanguage.dec.dec as decmod
+    from decaylanguage.dec.dec import DecFileParser
+    T = lambda name, *ch: Tree(name, list(ch))
+
+    def line(bf, ds, model, params=None, photos=False):
+        ch = [T("value", Tok(bf))] + [T("particle", Tok(d)) for d in ds] + ([T("photos")] if photos else [])
+        m = [Tok(model)] + ([T("model_options", *[T("value", Tok(p)) if not isinstance(p, str) else Tok(p) for p in params])] if params else [])
+        return T("decayline", *ch, T("model", *m))
+
+    def block(m, *lines):
+        return T("decay", T("particle", Tok(m)), *lines)
+
+    if sel == 0:
+        tree = T("start", block("B0", line(x, ["K+", "pi-"], "SVS_CP", [z, "word", x, "dm"], True), line(y, [], "PHSP")),
+                 T("define", Tok("dm"), Tok(y)))
+        exp = {"B0": [{"bf": x, "fs": ["K+", "pi-"], "model": "PHOTOS SVS_CP", "model_params": [z, "word", x, y]},
+                      {"bf": y, "fs": [], "model": "PHSP", "model_params": ""}]}
+    elif sel == 1:
+        tree = T("start", block("B0", line(x, ["K+"], "PHSP")), block("D0", line(z, ["pi0"], "PHSP")), block("B0", line(y, ["K-"], "PHSP")))
+        exp = {"B0": [{"bf": x, "fs": ["K+"], "model": "PHSP", "model_params": ""}], "D0": [{"bf": z, "fs": ["pi0"], "model": "PHSP", "model_params": ""}]}
+    elif sel == 2:
+        tree = T("start", block("D0", line(x, ["K-", "pi+"], "PHSP", [y])), T("copydecay", T("label", Tok("MyD0")), T("label", Tok("D0"))),
+                 T("cdecay", Tok("anti-D0")))
+        one = {"bf": x, "model": "PHSP", "model_params": [y]}
+        exp = {"D0": [dict(one, fs=["K-", "pi+"])], "MyD0": [dict(one, fs=["K-", "pi+"])], "anti-D0": [dict(one, fs=["K+", "pi-"])]}
+    else:
+        tree = T("start", T("model_alias", T("model_label", Tok("MA")), T("model", Tok("HELAMP"), T("model_options", T("value", Tok(z)), Tok("-dm")))),
+                 T("define", Tok("dm"), Tok(y)),
+                 block("B0", line(x, ["K+"], None), line(y, ["K-"], None)))
+        for ln in tree.children[2].children[1:]:
+            ln.children[-1] = T("model", T("model_label", Tok("MA")))
+        exp = {"B0": [{"bf": x, "fs": ["K+"], "model": "HELAMP", "model_params": [z, -y]}, {"bf": y, "fs": ["K-"], "model": "HELAMP", "model_params": [z, -y]}]}
+    _StubLark.tree = tree
+    old = decmod.Lark
+    decmod.Lark = _StubLark
+    try:
+        p = DecFileParser.from_string("given as a tree")
+        with warnings.catch_warnings():
+            warnings.simplefilter("ignore")
+            p.parse()
+    finally:
+        decmod.Lark = old
+    got = {m: [dict(p._decay_mode_details(dm)) for dm in p._find_decay_modes(m)] for m in p.list_decay_mother_names()}
+    if got != exp:
+        return fail(f"tables {got!r}, expected {exp!r} (x={x!r}, y={y!r}, z={z!r})")
+    if p.number_of_decays != len(exp):
+        return fail("number_of_decays")
+    m0 = next(iter(exp))
+    chain = p.build_decay_chains(m0, stable_particles=["K+", "K-", "pi+", "pi-", "pi0"])
+    if [d["bf"] for d in chain[m0]] != [d["bf"] for d in exp[m0]]:
+        return fail(f"chain of {m0}: {chain}")
+    return True
